@@ -18,7 +18,13 @@ CSS_NEST = {'type': 'stylesheet', 'snippets': {'bgz': 'background-zoom:zigzag|ze
 MARKUP_CFGS = [{}, {'syntax': 'jsx'}, {'options': {'bem.enabled': True}}, {'text': ['foo', 'bar']}, {'text': 'wrapped'}, {'syntax': 'pug'}, {'options': {'output.format': False}},
                {'options': {'comment.enabled': True}}, {'snippets': {'x': 'p+q', 'btn': 'button.btn'}}, {'syntax': 'xsl'}, {'maxRepeat': 2}, {'variables': {'foo': 'bar'}},
                {'options': {'bem.enabled': True, 'bem.element': '--'}, 'text': ['l1', 'l2']}, {'text': ['  first line', '      second line', '  third line']},
-               {'options': {'inlineElements': ['x-badge', 'my-el', 'a']}}, {'options': {'inlineElements': []}}, {'context': {'name': 'strong'}}, {'context': {'name': 'x-badge'}, 'options': {'inlineElements': ['x-badge']}}]
+               {'options': {'inlineElements': ['x-badge', 'my-el', 'a']}}, {'options': {'inlineElements': []}}, {'context': {'name': 'strong'}}, {'context': {'name': 'x-badge'}, 'options': {'inlineElements': ['x-badge']}},
+               {'text': []}, {'text': ''}, {'text': ['']}, {'text': ['', '  ']}]
+# global configurations (third argument of expand): they are arguments of the call like the others
+MARKUP_GLOBS = [{}, {'markup': {'options': {'output.indent': '  '}}}, {'markup': {'snippets': {'x': 'a+b', 'btn': 'button.g'}}}, {'html': {'variables': {'lang': 'fr', 'foo': 'glob'}}},
+                {'markup': {'options': {'output.selfClosingStyle': 'xhtml'}}, 'html': {'options': {'output.attributeQuotes': 'single'}}}, {'jsx': {'options': {'output.indent': '    '}}}]
+CSS_GLOBS = [{}, {'stylesheet': {'options': {'stylesheet.intUnit': 'pt'}}}, {'css': {'snippets': {'foo': 'foo-glob:1', 'p': 'p-glob:x'}}}, {'stylesheet': {'options': {'stylesheet.between': ' = '}}, 'css': {'options': {'stylesheet.after': ''}}},
+             {'sass': {'options': {'stylesheet.intUnit': 'em'}}}]
 CSS_CFGS = [{'type': 'stylesheet'}, {'type': 'stylesheet', 'options': {'stylesheet.intUnit': 'pt'}}, {'type': 'stylesheet', 'options': {'stylesheet.intUnit': 'rem', 'stylesheet.floatUnit': '%'}},
             {'type': 'stylesheet', 'syntax': 'sass'}, {'type': 'stylesheet', 'snippets': {'foo': 'foo-prop:10', 'bar': 'bar-prop:1.5|auto'}},
             {'type': 'stylesheet', 'snippets': {'foo': 'foo-prop:10', 'bar': 'bar-prop:1.5|auto'}, 'options': {'stylesheet.intUnit': 'pt', 'stylesheet.floatUnit': 'rem'}},
@@ -93,12 +99,20 @@ def cases(tier, seed, prop):
             probe = {'s': rnd.choice(['bg:zig', 'bg:zeb', 'pos:st', 'pos:fl', 'bg:n']), 'cfg': 1, 'cache': False}
             out.append({'cfgs': cfgs, 'as_object': as_object, 'hist': hist, 'probe': probe, 'g': 'css-nesting'})
             continue
+        globs = None
+        if not shared_cache and rnd.random() < .3:
+            # calls that differ in their global configuration (plain dictionaries: a resolved Config has its global layers built in)
+            globs = [copy.deepcopy(g) for g in rnd.sample(CSS_GLOBS if css else MARKUP_GLOBS, 3)]; as_object = [False for _ in cfgs]
         for _ in range(rnd.randint(2, 10)):
             ab = rnd.choice(pool_a)
             if rnd.random() < .15: ab = gens.mutate(rnd, ab, gens.ABBR_ALPHA)
             hist.append({'s': ab, 'cfg': rnd.randrange(k), 'cache': shared_cache and rnd.random() < .8})
+            if globs: hist[-1]['glob'] = rnd.randrange(3)
         probe = {'s': rnd.choice([a for a in pool_a if a not in ('lorem-',)]), 'cfg': rnd.randrange(k), 'cache': shared_cache and rnd.random() < .7}
-        out.append({'cfgs': cfgs, 'as_object': as_object, 'hist': hist, 'probe': probe, 'g': 'css' if css else 'markup'})
+        if globs: probe['glob'] = rnd.randrange(3)
+        case = {'cfgs': cfgs, 'as_object': as_object, 'hist': hist, 'probe': probe, 'g': ('css' if css else 'markup') + ('-globals' if globs else '')}
+        if globs: case['globs'] = globs
+        out.append(case)
     return out
 
 
@@ -110,7 +124,7 @@ def req(case):
     p = case['probe']
     c = copy.deepcopy(case['cfgs'][p['cfg']])
     if 'ctxclass' in p: c['context']['attributes']['class'] = p['ctxclass']
-    return '%s;%s' % (hx(p['s']), cfgcodec.encode(mk(c)))
+    return '%s;%s' % (hx(p['s']), cfgcodec.encode(mk(c), case['globs'][p['glob']] if 'glob' in p else None))
 
 
 FRESH = '''
@@ -122,10 +136,10 @@ from emmet.scanner import ScannerException
 from emmet.token_scanner import TokenScannerException
 def field(index, placeholder, **kw): return '${%%d:%%s}' %% (index, placeholder) if placeholder else '${%%d}' %% index
 for line in sys.stdin:
-    ab, c, use_cache = json.loads(line)
+    ab, c, use_cache, glob = json.loads(line)
     o = {'markup.href': False, 'output.field': field}; o.update(c.get('options', {})); c['options'] = o
     if use_cache: c['cache'] = {}
-    try: r = ['ok', expand(ab, c)]
+    try: r = ['ok', expand(ab, c, glob) if glob is not None else expand(ab, c)]
     except ScannerException as e: r = ['scanner', e.pos]
     except TokenScannerException as e: r = ['token', e.pos]
     except Exception as e: r = ['internal', type(e).__name__]
@@ -134,11 +148,11 @@ for line in sys.stdin:
 _fresh = {}
 
 
-def fresh_result(ab, cfg, use_cache):
+def fresh_result(ab, cfg, use_cache, glob=None):
     """the probe in a fresh interpreter (one new process per probe)"""
-    key = json.dumps([ab, cfg, use_cache], sort_keys=True)
+    key = json.dumps([ab, cfg, use_cache, glob], sort_keys=True)
     if key in _fresh: return _fresh[key]
-    r = subprocess.run([sys.executable, '-B', '-c', FRESH % vlib.REPO], input=json.dumps([ab, cfg, use_cache]) + '\n', capture_output=True, text=True, timeout=120)
+    r = subprocess.run([sys.executable, '-B', '-c', FRESH % vlib.REPO], input=json.dumps([ab, cfg, use_cache, glob]) + '\n', capture_output=True, text=True, timeout=120)
     res = tuple(json.loads(r.stdout.strip().splitlines()[-1]))
     _fresh[key] = res
     return res
@@ -178,11 +192,12 @@ def run(case, prop):
         else:
             if isinstance(c, Config): c.cache = None
             else: c.pop('cache', None)
-        try: return ('ok', expand(step['s'], c))
+        try: return ('ok', expand(step['s'], c, globs[step['glob']]) if 'glob' in step else expand(step['s'], c))
         except ScannerException as e: return ('scanner', e.pos)
         except TokenScannerException as e: return ('token', e.pos)
         except RecursionError: raise
         except Exception as e: return ('internal', type(e).__name__)
+    globs = copy.deepcopy(case.get('globs'))
     before = residue()
     for step in case['hist']: call(step)
     got = call(case['probe'])
@@ -192,10 +207,11 @@ def run(case, prop):
     if 'ctxclass' in p:
         pc['context']['attributes']['class'] = p['ctxclass']
         for s0 in snap: s0['context']['attributes']['class'] = p['ctxclass']             # the harness's own edit is not a modification by the library
-    want = fresh_result(p['s'], pc, bool(p['cache']))
+    want = fresh_result(p['s'], pc, bool(p['cache']), case['globs'][p['glob']] if 'glob' in p else None)
+    if case.get('globs') and globs != case['globs']: viol.append("config-changed| the caller's global configuration was modified by the calls: %r -> %r" % (case['globs'], globs))
     if got != want:
         viol.append('history-dependent| after %d earlier calls expand(%r, %r%s) = %r, in a fresh interpreter it is %r; history: %r' % (
-            len(case['hist']), p['s'], pc, ' + shared cache' if p['cache'] else '', got[1], want[1], [(h['s'], h['cfg'], h['cache']) + ((h['ctxclass'],) if 'ctxclass' in h else ()) for h in case['hist']]))
+            len(case['hist']), p['s'], pc, ' + shared cache' if p['cache'] else '', got[1], want[1], [(h['s'], h['cfg'], h['cache']) + ((h['ctxclass'],) if 'ctxclass' in h else ()) + (('global', case['globs'][h['glob']]) if 'glob' in h else ()) for h in case['hist']]))
     # the caller's configuration dictionaries keep their content (apart from the cache entry the harness itself toggles)
     for c, s0 in zip(cfgs, snap):
         c2 = {k: v for k, v in c.items() if k != 'cache'}
@@ -226,4 +242,4 @@ def nontrivial(case, line):
 
 
 def describe(case):
-    return {'configs': case['cfgs'], 'shared_Config_objects': case['as_object'], 'history': [(h['s'], h['cfg'], h['cache']) + ((h['ctxclass'],) if 'ctxclass' in h else ()) for h in case['hist']], 'probe': case['probe']}
+    return {'configs': case['cfgs'], 'global_configs': case.get('globs'), 'shared_Config_objects': case['as_object'], 'history': [(h['s'], h['cfg'], h['cache']) + ((h['ctxclass'],) if 'ctxclass' in h else ()) for h in case['hist']], 'probe': case['probe']}
